@@ -40,7 +40,7 @@ THEOREMS = {
     "C09": [("XV.Tz.indentation_stack_follows_the_reference", "XonshVerif.Properties.C09Stack"), ("XV.Tz.dedents_stack", "XonshVerif.Properties.C09Stack"), ("XV.Src.kept_keeps_significant", "XonshVerif.Proofs.TokenSourceKeep"), ("XV.Src.kept_no_double_newline", "XonshVerif.Proofs.TokenSourceKeep"), ("XV.Tz.measureIndent_spec", "XonshVerif.Properties.C09Indent"), ("XV.Tz.tab_stop", "XonshVerif.Properties.C09Indent"),
             ("XV.Tz.tokens_are_source_slices", "XonshVerif.Properties.C08"), ("XV.Tz.tokenize_structure", "XonshVerif.Properties.C08"),
             ("XV.Ops.first_listed_is_longest", "XonshVerif.Properties.C09"), ("XV.Ops.prefix_of_prefixes", "XonshVerif.Properties.C09")],
-    "C11": [("XV.Tz.token_range_error_wellformed", "XonshVerif.Properties.C11Tok"), ("XV.Tz.token_starts_in_text", "XonshVerif.Properties.C11Tok"), ("XV.Tz.tokenizeLines_b", "XonshVerif.Proofs.TokBounds"), ("XV.Helpers.error_wellformed", _HELP)],
+    "C11": [("XV.Tz.token_range_error_wellformed", "XonshVerif.Properties.C11Tok"), ("XV.Peg.generic_error_points_at_a_token", "XonshVerif.Proofs.PegFetch"), ("XV.Tz.token_starts_in_text", "XonshVerif.Properties.C11Tok"), ("XV.Tz.tokenizeLines_b", "XonshVerif.Proofs.TokBounds"), ("XV.Helpers.error_wellformed", _HELP)],
     "C10": [("XV.Concat.concat_preserves_text_and_fields", "XonshVerif.Proofs.Concat"), ("XV.Concat.joined_parts_are_normalised", "XonshVerif.Proofs.Concat"), ("XV.Concat.constant_only_without_fstring", "XonshVerif.Proofs.Concat"),
             ("XV.Tz.fstring_tokens_are_source_slices", "XonshVerif.Properties.C08"), ("XV.Tz.tokens_in_position_order", "XonshVerif.Properties.C08"), ("XV.Tz.fstring_tokens_balanced", "XonshVerif.Properties.C10"), ("XV.Tz.fstring_prefix_depth_defined", "XonshVerif.Properties.C10"),
             ("XV.Tz.tokenizeLines_fbal", "XonshVerif.Proofs.FstringBalance"), ("XV.Tz.handleFstringProgs_fstep", "XonshVerif.Proofs.FstringBalance"),
